@@ -331,7 +331,13 @@ def plainKeys (l : Layout) : List (Coord × Nat) :=
   | tbl :: _ => tbl.filterMap fun (c, a) => match a with | .keyCode k => some (c, k) | _ => none
   | _ => []
 
-def oracle (cc : C08Case) (l : Layout) (items : List Trace.Item) : String :=
+/-- ring evictions the harness observed on the real code: the `EV<n>` token after the digest -/
+def evictionsSeen (impl : String) : Nat :=
+  match ((impl.splitOn " ").filter (·.startsWith "EV")).head? with
+  | some t => ((t.drop 2).toString.toNat?).getD 0
+  | none => 0
+
+def oracle (cc : C08Case) (l : Layout) (items : List Trace.Item) (evicted : Nat) : String :=
   let hist := cc.c.hist
   let compiled := cc.t.macs.filterMap fun m => match compile m.form m.rep m.params with
     | .ok c => some (m, c) | .error _ => none
@@ -360,7 +366,9 @@ def oracle (cc : C08Case) (l : Layout) (items : List Trace.Item) : String :=
   -- layout level: the CancelSequences key is pressed
   let cancelForms := compiled.any fun (_, c) => !c.customs.isEmpty
   let patchPressed := hist.any fun e => match e with | .press c => c.1 == 0 && cc.t.patch.contains c.2 | _ => false
-  let cancellable := (cc.tag == "KAN" && cancelForms) || patchPressed
+  -- a 5th concurrently active macro evicts the oldest from the ring of 4 (capacity limit of the
+  -- layout, documented): the evicted macro is cut short like a cancelled one, its keys released
+  let cancellable := (cc.tag == "KAN" && cancelForms) || patchPressed || evicted > 0
   -- O2: projection onto each macro's own keys
   let o2 := infos.filterMap fun i =>
     let others := (infos.filter (·.y != i.y)).flatMap (·.keys)
@@ -417,7 +425,7 @@ def runOracle (line : String) : String × String :=
   | .error _ => ("skip", "-")
   | .ok cc =>
     match cc.c.layout, Trace.parse impl with
-    | some l, some items => (oracle cc l items, "-")
+    | some l, some items => (oracle cc l items (evictionsSeen impl), "-")
     | _, _ => ("skip", "-")
 
 end KVerif.Drv.C08
